@@ -506,6 +506,45 @@ class FnView:
         fields = self._named_fields(pl["p"])
         return self._origins_local(pl["l"], tuple(fields) + tuple(proj), taint, visiting, at)
 
+    def alias_roots(self, local, depth=0, seen=None):
+        """Locals that `local` (a pointer / reference / moved box) may refer to: follows ref / cast /
+        copy definitions backwards."""
+        seen = seen if seen is not None else set()
+        if local in seen or depth > 6:
+            return set()
+        seen.add(local)
+        out = set()
+        for d in self.defs().get(local, []):
+            if d[0] != "s":
+                continue
+            rv = d[3]["rv"]
+            src = None
+            if rv["r"] == "ref":
+                src = rv["pl"]["l"]
+            elif rv["r"] in ("cast", "use") and rv["op"]["k"] in ("copy", "move"):
+                src = rv["op"]["pl"]["l"]
+            if src is not None:
+                out.add(src)
+                out |= self.alias_roots(src, depth + 1, seen)
+        return out
+
+    def _vec_macro_elements(self, t, proj, taint, visiting, at):
+        """`vec![a, b]` lowers to Box::new_uninit + a write of the array through a raw pointer +
+        box_assume_init_into_vec_unsafe(box). Return the origins of the written array elements."""
+        out = set()
+        a0 = t["args"][0]
+        if a0["k"] not in ("copy", "move"):
+            return out
+        boxes = {a0["pl"]["l"]} | self.alias_roots(a0["pl"]["l"])
+        p2 = proj[1:] if (proj and proj[0] == "[]") else proj
+        for b, i, s in self.iter_stmts():
+            if "*" not in s["lhs"]["p"]:
+                continue
+            roots = {s["lhs"]["l"]} | self.alias_roots(s["lhs"]["l"])
+            if roots & boxes:
+                out |= self._origins_rvalue(s["rv"], p2, taint, visiting, b, i, (b, i))
+        return out
+
     def storage_item_of_call(self, t, at=None):
         """For a cw_storage_plus call: origins of the receiver (item paths / params)."""
         if not t["args"]:
@@ -527,6 +566,10 @@ class FnView:
             return out or {Origin("load", "?", None, proj)}
         if callee.endswith("::from_residual"):
             return {Origin("err", None, "%s:bb%d" % (self.path, b))}
+        if callee == "std::boxed::box_assume_init_into_vec_unsafe" and t["args"]:
+            r = self._vec_macro_elements(t, proj, taint, visiting, at)
+            if r:
+                return r
         if _TRANSPARENT_RE.search(callee):
             if t["args"]:
                 return self._origins_op(t["args"][0], proj, taint, visiting, at)
